@@ -2786,6 +2786,12 @@ func (s *Server) serveConnCounted(c net.Conn, countConcurrency bool) error {
 
 		if s.stop.Load() == 1 {
 			err = nil
+			if bw != nil {
+				// The response may still sit in the write buffer when further
+				// pipelined requests were already read: it must reach the client
+				// before the connection is given up for the shutdown.
+				err = bw.Flush()
+			}
 			break
 		}
 	}
